@@ -31,6 +31,23 @@ use verif_harness::gen::c08 as gen;
 pub struct C08;
 
 const WATCHDOG: Duration = Duration::from_secs(10);
+const WALL_LIMIT: Duration = Duration::from_secs(120);
+
+/// CPU time consumed so far by a (running) thread
+fn thread_cpu<T>(h: &std::thread::JoinHandle<T>) -> Option<Duration> {
+    use std::os::unix::thread::JoinHandleExt;
+    unsafe {
+        let mut clk: libc::clockid_t = 0;
+        if libc::pthread_getcpuclockid(h.as_pthread_t(), &mut clk) != 0 {
+            return None;
+        }
+        let mut ts: libc::timespec = std::mem::zeroed();
+        if libc::clock_gettime(clk, &mut ts) != 0 {
+            return None;
+        }
+        Some(Duration::new(ts.tv_sec as u64, ts.tv_nsec as u32))
+    }
+}
 
 // ---------------------------------------------------------------------------------------------
 // in-memory FileAndPathHelper
@@ -331,7 +348,9 @@ fn exec_kernel(w: &[&str], stats: &mut Stats) -> Option<String> {
         }
         _ => return None,
     };
-    stats.bump(&format!("kernel_{}_{}", w[0], out.split(' ').next().unwrap_or("")));
+    let cls = if w[0] == "symindex" { out.replace(' ', "_").chars().take(48).collect::<String>() } else { out.split(' ').next().unwrap_or("").to_string() };
+    let cls = if w[0] == "symindex" && cls.starts_with("ok_") { "ok".to_string() } else { cls };
+    stats.bump(&format!("kernel_{}_{}", w[0], cls));
     Some(out)
 }
 
@@ -381,8 +400,16 @@ fn exec_explore(w: &[&str], overlay: &mut HashMap<String, Bytes>, stats: &mut St
                         for a in &addrs {
                             if let Some(i) = map.lookup_sync(LookupAddress::Relative(*a)) {
                                 hits += 1;
-                                // what the API layers compute from a lookup result
-                                let _off = a.checked_sub(i.symbol.address);
+                                // what the API layers compute from a lookup result: `address - symbol.address`
+                                // (symbolicate/mod.rs:231) must not underflow, a frame list is never empty (:237)
+                                if a.checked_sub(i.symbol.address).is_none() {
+                                    return "neg-offset".to_string();
+                                }
+                                if let Some(FramesLookupResult::Available(fr)) = &i.frames {
+                                    if fr.is_empty() {
+                                        return "empty-frames".to_string();
+                                    }
+                                }
                                 let _end = i.symbol.size.and_then(|s| i.symbol.address.checked_add(s));
                             }
                         }
@@ -401,7 +428,11 @@ fn exec_explore(w: &[&str], overlay: &mut HashMap<String, Bytes>, stats: &mut St
         }
         ["symcreate", chunk, data] => {
             let chunk: usize = chunk.parse().ok().filter(|c| *c > 0)?;
-            let data = unhex(data);
+            // `@<name>`: the contents of a file served earlier in this case
+            let data = match data.strip_prefix('@') {
+                Some(n) => overlay.get(&utf8(n)?).map(|b| b.to_vec()).unwrap_or_default(),
+                None => unhex(data),
+            };
             let mut class = "err";
             let r = guarded(|| {
                 let mut c = BreakpadIndexCreator::new();
@@ -458,7 +489,7 @@ impl Prop for C08 {
     fn case_count(&self, tier: Tier) -> u64 {
         match tier {
             Tier::Quick => 4000,
-            Tier::Thorough => 250_000,
+            Tier::Thorough => 150_000,
         }
     }
     fn fixed_cases(&self, tier: Tier) -> Vec<Case> {
@@ -473,23 +504,53 @@ impl Prop for C08 {
     fn execute(&self, ops: &[String], stats: &mut Stats) -> Vec<String> {
         let (tx, rx) = std::sync::mpsc::channel();
         let owned = ops.to_vec();
-        let handle = std::thread::Builder::new()
-            .stack_size(16 << 20)
-            .spawn(move || run_case(owned, tx))
-            .expect("spawn");
+        // (a failed spawn is the machine's problem, not an outcome of the code under test: retry)
+        let mut handle = None;
+        for attempt in 0..200 {
+            let (o, t) = (owned.clone(), tx.clone());
+            match std::thread::Builder::new().stack_size(16 << 20).spawn(move || run_case(o, t)) {
+                Ok(h) => {
+                    handle = Some(h);
+                    break;
+                }
+                Err(_) => {
+                    stats.bump("spawn_retries");
+                    std::thread::sleep(Duration::from_millis(50 + 10 * attempt));
+                }
+            }
+        }
+        drop(tx);
+        let handle = handle.expect("could not spawn a case thread");
         let mut out = Vec::new();
+        let mut waited = Duration::ZERO;
+        let mut cpu_at_last_answer = thread_cpu(&handle);
         loop {
             match rx.recv_timeout(WATCHDOG) {
-                Ok(Ok(line)) => out.push(line),
+                Ok(Ok(line)) => {
+                    out.push(line);
+                    waited = Duration::ZERO;
+                    cpu_at_last_answer = thread_cpu(&handle);
+                }
                 Ok(Err(s)) => {
                     stats.merge(&s);
                     let _ = handle.join();
                     break;
                 }
                 Err(std::sync::mpsc::RecvTimeoutError::Timeout) => {
-                    stats.bump("hangs");
-                    out.push("hang".to_string());
-                    break; // the stuck thread is abandoned
+                    // A hang = the call has burnt more than the watchdog time of CPU without answering,
+                    // or has not answered for WALL_LIMIT (blocked). A thread that was merely starved of
+                    // CPU by other processes is given more time, so machine load cannot fake a hang.
+                    waited += WATCHDOG;
+                    let burnt = match (thread_cpu(&handle), cpu_at_last_answer) {
+                        (Some(now), Some(then)) => now.saturating_sub(then),
+                        _ => waited,
+                    };
+                    if burnt >= WATCHDOG || waited >= WALL_LIMIT {
+                        stats.bump("hangs");
+                        out.push("hang".to_string());
+                        break; // the stuck thread is abandoned
+                    }
+                    stats.bump("watchdog_extensions_under_load");
                 }
                 Err(std::sync::mpsc::RecvTimeoutError::Disconnected) => {
                     // the case thread died outside a guarded call
